@@ -4,8 +4,9 @@ Oracle: independent vectorised implementation (vlib.refmath.Tensor2D: dense coll
 vectorised Cox-de Boor) of the stated scheme: drift (-d_r phi, d_theta phi)/(r B0), explicit Heun or
 converged implicit trapezoid with radial clipping, theta modulo 2 pi, boundary values.  Anchors that
 fix the sign conventions independently of the code: constant potential, rigid rotation, third-order
-agreement of the two schemes.  Termination of the implicit iteration is judged in sweeps with a
-sys.monitoring LINE counter on the `while (norm > tol)` loop -- never in seconds.
+agreement of the two schemes.  Termination of the implicit iteration is judged in executed lines of the
+implicit kernel (sys.monitoring LINE counter, budget = lines that `bound` fixed-point iterations per node
+can need, whatever the loop organisation) -- never in seconds.
 Nodes whose foot or Heun predictor lies within 1e-9 of the radial boundary are excluded, as the
 property says.
 """
@@ -29,9 +30,9 @@ RULE = ("seeded set-ups: grids 6x6 ... 20x20 (theta x r), uniform-cubic and gene
         "smooth/rough nodal values, Fourier mode x radial profile, rigid rotation omega r^2/2, constants; dt of either sign over "
         "three decades; several v; both boundary modes; explicit and implicit scheme (tolerances 1e-10 and 1e-13).  Every "
         "non-excluded node compared with the independent scheme; identities (constant potential, exact rigid rotation for "
-        "both schemes, explicit-vs-implicit difference shrinking >= 5x per halving of dt on the finest resolvable pair of dt, dt/2, dt/4).  Termination: sweeps of the "
-        "implicit loop counted by sys.monitoring; must-terminate class q=|dt|/2*Lip(drift)*1.2 <= 0.8 within "
-        "ceil(log(tol/D0)/log(q))+5 sweeps; hostile class q >= 1 capped (known finding); 0.8<q<1 not judged.  A class is "
+        "both schemes, explicit-vs-implicit difference shrinking >= 5x per halving of dt on the finest resolvable pair of dt, dt/2, dt/4).  Termination: executed lines of the "
+        "implicit kernel counted by sys.monitoring; must-terminate class q=|dt|/2*Lip(drift)*1.2 <= 0.8 within the line budget of "
+        "ceil(log(tol/D0)/log(q))+5 fixed-point iterations per node (120 lines per node and iteration allowed; the shipped kernel uses about 35); hostile class q >= 1 capped (known finding); 0.8<q<1 not judged.  A class is "
         "(scheme, basis path, boundary mode, potential kind, dt class, monitor).")
 ASSUMPTIONS = ["reference 2-D splines by dense collocation solves; Lipschitz constant of the drift estimated by central differences at 20 samples per cell (x1.2 safety)",
                "tolerance 500*eps*kappa*scale + gradient*(foot rounding + implicit stopping tolerance/(1-q))", "B0 taken from the constants object"]
@@ -193,14 +194,6 @@ def make_phi(setup, kind, rs, amp):
     return amp * PH + 0.01 * rs.uniform(-1, 1) * R * R, None
 
 
-def _loop_line(func):
-    src, start = inspect.getsourcelines(func)
-    for i, ln in enumerate(src):
-        if ln.strip().startswith("while") and "norm" in ln and "tol" in ln:
-            return start + i
-    return None
-
-
 def run_case(case):
     import pygyro.splines as spl
     from pygyro.advection import advection as adv
@@ -213,19 +206,24 @@ def run_case(case):
     return _hostile(case, spl, adv, acc)
 
 
-def _run_impl_counted(setup, acc, F, dt, phis, v, budget):
-    """run step() counting the sweeps of the implicit loop; returns (sweeps or None, exceeded?)"""
+PER_ITER, PER_NODE = 120, 400      # generous line budgets per node and fixed-point iteration / per node outside the iteration
+
+
+def _run_impl_counted(setup, acc, F, dt, phis, v, bound):
+    """run step() under a budget of executed lines of the implicit kernel that corresponds to `bound` fixed-point
+    iterations for every node (however the kernel organises its loops: global sweeps or node by node);
+    returns (equivalent sweeps or None if the kernel was not entered, exceeded?)"""
     fn = acc.general_poloidal_advection_step_impl
-    line = _loop_line(fn)
-    if line is None:
-        setup.op.step(F, dt, phis, v)
-        return None, False
+    N = int(F.size)
+    budget = N * (bound * PER_ITER + PER_NODE) + 2000
     try:
-        with LineCounter(fn, budget=budget + 1, lines=[line]) as lc:
+        with LineCounter(fn, budget=budget) as lc:
             setup.op.step(F, dt, phis, v)
-        return lc.count - 1, False       # the loop header is evaluated once more than the body runs
+        if lc.count == 0:
+            return None, False
+        return lc.count / float(N * 35), False      # about 35 lines per node and sweep in the shipped kernel
     except BudgetExceeded:
-        return budget, True
+        return bound, True
 
 
 def _formula(case, spl, adv, acc):
@@ -298,7 +296,8 @@ def _formula(case, spl, adv, acc):
                 cls.add("%s/termination" % base)
             if exceeded:
                 return result(VIOL, cls=sorted(cls), events=ev, key="C12:implicit/not-terminating-inside-contraction-regime",
-                              what="implicit iteration needed more than %d sweeps although q=%.3g <= 0.8 (dt=%.4g, tol=%g, potential %s)" % (bound, q, dt, case["tol"], case["phi"]), witness=wit)
+                              what="implicit iteration executed more lines than %d fixed-point iterations per node can need (%d lines per node and iteration allowed) although q=%.3g <= 0.8 (dt=%.4g, tol=%g, potential %s)"
+                              % (bound, PER_ITER, q, dt, case["tol"], case["phi"]), witness=wit)
         ref, judged, info = S.ref_step(F0, Cphi, dt, v)
         ev["history_steps"] += int(hstep >= 2)
         ev["feet_outside_low"] += info["low"]
@@ -405,6 +404,6 @@ def _hostile(case, spl, adv, acc):
     ev["implicit_runs_counted"] = 1 if sweeps is not None else 0
     if exceeded:
         return result(VIOL, cls=["hostile/q>=1"], events=ev, key=KEY_NOCONTRACT,
-                      what="implicit iteration exceeded %d sweeps (q=%.3g, dt=%g, rough potential of amplitude 3 on a %dx%d grid): the loop has no iteration bound" % (case["cap"], q, dt, n, n + 1),
+                      what="implicit iteration exceeded the line budget of %d iterations per node (q=%.3g, dt=%g, rough potential of amplitude 3 on a %dx%d grid): the loop has no iteration bound" % (case["cap"], q, dt, n, n + 1),
                       witness={"case": case, "q": q})
     return result(HELD, cls=["hostile/q>=1/terminated"], events=ev, extra={"sweeps": sweeps, "q": q})
